@@ -8,7 +8,7 @@ from . import detsched, progs
 from .common import Violation
 
 KINDS = ('stp', 'lpm', 'pf', 'pm', 'pf2')
-EXCS = ('VErrA', 'VErrB', 'VErrC', 'VBase')
+EXCS = ('VErrA', 'VErrB', 'VErrC', 'VBase', 'IndexError')
 
 
 class Trace:
